@@ -12,6 +12,7 @@ Tr == ndJsonDeserialize(IOEnv.VERIF_TRACE)
 VARIABLES l, nfail
 Tag(cond, t) == IF cond THEN <<>> ELSE <<t>>
 
+Has(e, k) == k \in DOMAIN e
 SumSeq(s) == FoldLeft(LAMBDA a, i : a + s[i], 0, [i \in 1..Len(s) |-> i])
 StreamFails(e) ==
   LET wf == \A i \in 1..Len(e.cmds) : WellFormed(e.pkg, e.dir, e.cmds[i]) /\ Constructible(e.pkg, e.dir, e.cmds[i]) IN
@@ -22,6 +23,7 @@ StreamFails(e) ==
            Tag(e.bytes = exp, "C18.bytes")
            \o Tag(Len(e.sizes) = Len(e.cmds) /\ \A i \in 1..Len(e.cmds) : e.sizes[i] = Len(ACmdBytes(e.pkg, e.dir, e.cmds[i])) /\ Len(e.bytes) = SumSeq(e.sizes), "C18.size")
            \o Tag(e.derr = "" /\ e.intact /\ e.back = e.cmds, "C18.roundtrip")
+           \o Tag(Has(e, "kept") => (e.kerr = "" /\ e.kept = e.cmds), "C18.roundtrip")    \* still so for a result the caller kept while the variable was decoded into again
            \o Tag(LET d == ADecodeStream(e.pkg, e.dir, exp) IN d.ok /\ d.cmds = e.cmds, "C18.specroundtrip"))
 
 \* decode direction: the specification's bytes of a well-formed sequence decode to that sequence
@@ -29,6 +31,7 @@ DecFails(e) ==
   LET wf == \A i \in 1..Len(e.cmds) : WellFormed(e.pkg, e.dir, e.cmds[i]) IN
   IF ~wf \/ e.bytes # AStreamBytes(e.pkg, e.dir, e.cmds) THEN <<>>
   ELSE Tag(e.derr # "panic", "C18.nopanic") \o Tag(e.derr = "" /\ e.intact /\ e.back = e.cmds, "C18.roundtrip")
+       \o Tag(Has(e, "kept") => (e.kerr = "" /\ e.kept = e.cmds), "C18.roundtrip")
 
 McKeyFails(e) ==
   LET exp == CASE e.kind = "rootGenAppKey" -> AESEnc(e["in"], McBlock(0, <<>>))
